@@ -43,7 +43,7 @@ def required(tier):
 
 def gen_cases(seed, tier):
     rng = np.random.default_rng([seed, 4])
-    n = 512 if tier == 'quick' else 12000
+    n = 512 if tier == 'quick' else 60000
     cases = []
     letters = 'ABCDEFGHIJKLMNOPQRSTUVWXYZ'
     chars = letters + '0123456789_'
